@@ -51,6 +51,7 @@ RULE = (
     "Oracle: it returns or raises (any exception) within 10 s of CPU time and with a tracemalloc peak <= 64 MiB + 8 x (input + "
     "requested bytes + allocation unit of the seed). Non-trivial = the mutated input differs from its seed and still passes "
     "the first magic check (the parser got past its header)."
+    ' Tar header mutations also with recomputed header checksums; crafted pax size-record cycles (an extended header in front of a visor member whose data offset leads back to an earlier header); the 128 MiB grain bomb as zlib, raw deflate and gzip stream.'
 )
 ASSUMPTIONS = [
     "PBKDF2 iteration counts above 10^6 in a mutated key safe are not unlocked (the cost is inherent to the stored parameter)",
